@@ -71,7 +71,7 @@ def coq_project():
         raise RuntimeError("coqproject.sh failed: " + out)
 
 
-def coq_make(targets, timeout=3000, force=()):
+def coq_make(targets, timeout=3000, force=(), keep_going=False):
     """Full .vo build of the given targets (and what they depend on).  Returns (ok, log)."""
     with Lock("coq"):
         coq_project()
@@ -80,7 +80,7 @@ def coq_make(targets, timeout=3000, force=()):
                 os.remove(os.path.join(COQ, t))
             except OSError:
                 pass
-        rc, out = sh(["timeout", str(timeout), "make", "-j%d" % NCPU] + list(targets), cwd=COQ, timeout=timeout + 30)
+        rc, out = sh(["timeout", str(timeout), "make", "-j%d" % NCPU] + (["-k"] if keep_going else []) + list(targets), cwd=COQ, timeout=timeout + 30)
     return rc == 0, out
 
 
